@@ -557,7 +557,7 @@ struct Header(kind: UInt:8, scale: lib.Scale):
   if len > 4:
     4   [+4]   Int         offset
   if kind == 3 && scale == lib.Scale.DOUBLE:
-    8   [+1]   Flag:8      wide_flag
+    8   [+1]   UInt:8      wide_value
   let twice = len * 2
     -- Virtual field documentation.
   let alias_of_len = len
@@ -644,8 +644,8 @@ struct Dyn:
   0 [+1]  UInt  count
   1 [+1]  UInt  width
   2 [+count * width]  UInt:8[]  table
-  let end = 2 + count * width
-  end [+2]  UInt  trailer
+  let tail = 2 + count * width
+  tail [+2]  UInt  trailer
   if count == 0:
     0 [+1]  bits:
       0 [+1]  Flag  empty_marker
